@@ -102,7 +102,7 @@ def check_all_charts(pt, klein, ideal, where, v):
 # ------------------------------------------------------------------------------------------
 def case_models(hist):
     root = hist[0]
-    _, n, kind, klein, model, rep = root
+    _, n, kind, klein, model, rep, both = root
     ideal = kind == "ideal"
     klein = np.asarray(klein, dtype=float)
     pt = build(oracle_coords(model, klein, rep), model)
@@ -126,7 +126,12 @@ def case_models(hist):
     tt, worst = check_all_charts(pt, klein, ideal, where, v)
     t += tt
     variants = IDEAL_VARIANTS if ideal else VARIANTS
-    ops = [] if v else [["to", m, via, r] for (m, r) in variants for via in VIAS]
+    if v:
+        ops = []
+    elif both:
+        ops = [["to", m, via, r] for (m, r) in variants for via in VIAS]
+    else:       # quick tier: the two constructors alternate over targets and levels
+        ops = [["to", m, VIAS[(i + len(hist)) % 2], r] for i, (m, r) in enumerate(variants)]
     key = repr((n, kind, klein.tolist(), prev, cur))
     return {"v": v, "t": t, "key": key, "ops": ops,
             "o": "%d/%s/%s/%d" % (n, kind, "->".join(p.split("/")[0] for p in path[-2:]), int(np.ceil(np.log10(worst + 1e-12)))),
@@ -339,14 +344,15 @@ def run(ctx):
         lat[n] = (P, I)
         for k in P:
             for (m, r) in VARIANTS:
-                roots.append([["root", n, "interior", k, m, r]])
+                roots.append([["root", n, "interior", k, m, r, not q]])
         for k in I:
             for (m, r) in IDEAL_VARIANTS:
-                roots.append([["root", n, "ideal", k, m, r]])
+                roots.append([["root", n, "ideal", k, m, r, not q]])
     ctx.bfs("model-graph", "checks.c01:case_models", roots, depth=depth, chunk=256,
             domains={"dimensions": dims, "interior points per dimension": {n: len(lat[n][0]) for n in dims},
                      "ideal points per dimension": {n: len(lat[n][1]) for n in dims},
-                     "(model, representative)": VARIANTS, "constructors": VIAS, "depth": depth})
+                     "(model, representative)": VARIANTS, "depth": depth,
+                     "constructors": VIAS if not q else "Point / get_point alternating over targets and levels"})
 
     cases = [{"n": n, "p": p, "q": qq, "same": i == j}
              for n in dims for i, p in enumerate(lat[n][0]) for j, qq in enumerate(lat[n][0])]
